@@ -4,3 +4,46 @@ COMMON_TB = [
     "correspondence harness /verif/harness (Go, built from /repo with -tags verif): generators, canonicalisation, diff",
     "direct oracles in the harness (property evaluated on the real code's own observations)",
 ]
+
+
+# ---- projections of the `graph` sub-harness observation  "st=… ev=… [fl=… pub=…]"
+
+def _gparse(obs):
+    d = {}
+    for tok in obs.split(" "):
+        if "=" in tok:
+            k, v = tok.split("=", 1)
+            d[k] = v
+    return d
+
+
+def g_wiring(obs):
+    """success/failure + which object sits in which field + by-name lookups (C01, C02, C03, C06, C07, C08, C10)"""
+    d = _gparse(obs)
+    ok = d.get("st") == "ok"
+    return ("ok" if ok else ("fail" if d.get("st", "").startswith("err") else d.get("st")), d.get("fl"), d.get("pub"))
+
+
+def g_lifecycle(obs):
+    """outcome class and stage + the lifecycle event log without runner events (C05, C09)"""
+    d = _gparse(obs)
+    ev = ",".join(e for e in d.get("ev", "-").split(",") if not e.startswith("r"))
+    return (d.get("st"), ev)
+
+
+def g_runners(obs):
+    """outcome + runner invocations and their position after all lifecycle events (C13, C09)"""
+    d = _gparse(obs)
+    evs = d.get("ev", "-").split(",")
+    rs = [e for e in evs if e.startswith("r")]
+    first = next((i for i, e in enumerate(evs) if e.startswith("r")), len(evs))
+    trailing = all(e.startswith("r") or e.startswith("e") for e in evs[first:])
+    return (d.get("st"), ",".join(rs), trailing)
+
+
+GRAPH_TB = COMMON_TB + [
+    "reflect (Implements, exact type identity, AssignableTo, MethodByName) — computed by the harness with the same reflect calls and passed to the model as rows",
+    "sync.Map enumeration order is imposed through the verif hook (factory.NewWithRegistries) and is an input of the model",
+    "sort.Slice is an insertion sort (stable) below 12 elements — runner lists are kept shorter than that",
+    "user post-processors are modelled as (name, object) functions and fault flags; callbacks that re-enter the factory are outside the model",
+]
